@@ -51,6 +51,8 @@ def fixtures():
     add("grid-wide", (9,), lambda: G([L("a"), L("t", False), L("b"), L("c")], 2, 1, 1, "center"))
     add("frame", (4, 5), lambda: urwid.Frame(urwid.Filler(P([L("a"), L("b")])), header=L("h"), footer=L("f", False)))
     add("frame(cols-header,listbox)", (6, 5), lambda: urwid.Frame(urwid.ListBox(urwid.SimpleFocusListWalker([L("a"), L("b")])), header=C([L("h"), L("i")]), footer=L("f")))
+    add("frame-tall-header", (4, 4), lambda: urwid.Frame(urwid.Filler(P([L("a"), L("b")])), header=P([L("h"), L("i"), L("j")]), footer=L("f")))
+    add("frame-header-fills", (4, 3), lambda: urwid.Frame(urwid.Filler(L("a")), header=P([L("h"), L("i"), L("j")])))
     add("overlay", (6, 4), lambda: urwid.Overlay(urwid.Filler(P([L("a"), L("b")])), urwid.Filler(L("z")), "center", 3, "middle", 2))
     add("listbox", (6, 3), lambda: urwid.ListBox(urwid.SimpleFocusListWalker([L("a"), L("t", False), C([L("b"), L("c")]), L("d")])))
     add("listbox(pile)", (4, 4), lambda: urwid.ListBox(urwid.SimpleFocusListWalker([P([L("a"), L("t", False)]), L("u", False), P([L("b"), L("c")])])))
@@ -235,6 +237,13 @@ class Spec:
         out.append(("roundtrip",))
         if st.saved_path is not None:
             out.append(("restore",))
+        if getattr(st, "depth", 0) <= (0 if self.tier == "quick" else 1):
+            # two inputs handled in one main-loop pass: no render between an assignment / deletion and the next event
+            firsts = [o for o in out if (o[0] == "focus" and o[2] != "bogus" and not (isinstance(o[2], int) and o[2] < 0)) or o[0] == "del"]
+            seconds = [o for o in out if o[0] == "press" and o[2] < 3] + [("key", k) for k in ("up", "down", "left", "right")]
+            for a in firsts:
+                for b in seconds:
+                    out.append(("seq", a, b))
         return out
 
     # ------------------------------------------------------------------
@@ -304,14 +313,47 @@ class Spec:
 
     # ------------------------------------------------------------------
     def apply(self, cfg, st: St, op, ctx: Ctx, hist):
+        st.depth = len(hist) + 1
         try:
+            if op[0] == "seq":
+                if not self._apply(cfg, st, op[1], ctx, hist, record=op):
+                    return False
+                ok = self._apply(cfg, st, op[2], ctx, hist, record=op)
+                if ok and not ctx.muted:
+                    settle(st)
+                    self.render_transparent(cfg, st, op, ctx, hist)
+                return ok
             return self._apply(cfg, st, op, ctx, hist)
         finally:
             settle(st)
 
-    def _apply(self, cfg, st: St, op, ctx: Ctx, hist):
+    def render_transparent(self, cfg, st, op, ctx, hist):
+        """the same two inputs with the main loop's render in between must lead to the same focus state"""
         name = FIXTURES[cfg][0]
-        case = {"fixture": name, "hist": hist + (op,)}
+        got = canon(st.root)
+        muted = ctx.muted
+        ctx.muted = True
+        try:
+            tw = self.build(cfg)
+            for i, h in enumerate(hist):
+                self.apply(cfg, tw, h, ctx, hist[:i])
+            self._apply(cfg, tw, op[1], ctx, hist)
+            settle(tw)
+            self._apply(cfg, tw, op[2], ctx, hist)
+            settle(tw)
+            want = canon(tw.root)
+        finally:
+            ctx.muted = muted
+        if got != want:
+            cs, _ls = [], []
+            walk(st.root, cs, _ls)
+            cn = type(cs[op[1][1]]).__name__ if len(op[1]) > 1 and isinstance(op[1][1], int) and op[1][1] < len(cs) else ""
+            ctx.violation("render-transparent", f"C08/render-transparent/{name}/{op[1][0]}+{op[2][0]}/{cn}", {"fixture": name, "hist": hist + (op,)},
+                          f"{op[1]!r} directly followed by {op[2]!r} gives focus state {got}; with a render in between {want}")
+
+    def _apply(self, cfg, st: St, op, ctx: Ctx, hist, record=None):
+        name = FIXTURES[cfg][0]
+        case = {"fixture": name, "hist": hist + (record or op,)}
         root, size = st.root, st.size
         ctx.count("evaluations")
 
@@ -328,6 +370,7 @@ class Spec:
             if not root.selectable():
                 return True
             before_leaf = focus_leaf(root)
+            pending = any(isinstance(c, urwid.ListBox) and (c.set_focus_pending is not None or c.set_focus_valign_pending is not None) for c in cs)
             before_pos = []
             for cont in cs:
                 try:
@@ -343,6 +386,8 @@ class Spec:
             if got is not None and got != key:
                 V("unhandled-unchanged", f"keypress({key!r}) returned {got!r}")
             for lf in ls:
+                if pending:
+                    break  # the focus path is only defined once the ListBox has resolved its pending focus change (it does so first thing in keypress)
                 if any(e[0] == "keypress" for e in lf.log) and lf is not before_leaf:
                     V("keys-on-path", f"key {key!r} was offered to leaf {lf.name}, the focus path ended at {before_leaf.name if before_leaf else None}")
             if before_leaf is not None and before_leaf.selectable() and not any(e[0] == "keypress" for e in before_leaf.log):
@@ -504,7 +549,9 @@ def run(tier, R):
         "rule": f"BFS depth {depth} from {len(FIXTURES)} fixtures (Pile flow/box, Columns, nestings, GridFlow, Frame, Overlay, ListBox, empty and all-unselectable containers) "
         "over keys (arrows, page, home/end, tab, a character), button-1 presses on every cell, focus_position assignment for every valid position and for -1 / len / 'bogus' on "
         "every container, set_focus_path round trip and restoring the initial path, contents insert/assign/replace-all/delete/slice-delete (incl. reversed and extended "
-        "slices)/clear, ListBox walker insert/delete, Frame header/footer set and removed; states deduplicated on the complete focus state (positions, pref_col, ListBox "
+        "slices)/clear, ListBox walker insert/delete, Frame header/footer set and removed, and pairs (focus assignment or deletion, then a press or arrow key with no render in between: "
+        f"{'as the first step' if tier == 'quick' else 'as the first or second step'}; the pair must end in the same focus state as with the main loop's render in between); Frame headers "
+        "taller than the space they get; states deduplicated on the complete focus state (positions, pref_col, ListBox "
         "offsets, probe cursors); non-trivial = distinct states",
         "exhaustive": bool(res["closed"]) or not res["capped"],
         "bfs_levels": res["levels"],
@@ -516,6 +563,8 @@ def run(tier, R):
             "leaves are recording probes (mc/probe.py); the root's keypress is called only when the root is selectable (as MainLoop does)",
             "'arrow keys move focus only onto selectable children' is judged on Pile, Columns, GridFlow and Frame (a ListBox scrolls through unselectable items by design)",
             "'selectable exactly when one of its children is' is judged right after each contents assignment",
+            "while a ListBox on the path has a pending focus change (assignment not yet followed by a render) the focus path is not defined until the ListBox resolves it, "
+            "so 'a key is offered only to the focus path' is not judged for a key that directly follows such an assignment; the resulting state is compared with the run that renders in between",
         ],
     }
 
